@@ -45,7 +45,6 @@
 package interp // import "golang.org/x/tools/go/ssa/interp"
 
 import (
-	"strings"
 	"fmt"
 	"go/token"
 	"go/types"
@@ -53,6 +52,7 @@ import (
 	"os"
 	"runtime"
 	"slices"
+	"strings"
 	_ "unsafe"
 
 	"golang.org/x/tools/go/ssa"
@@ -113,7 +113,7 @@ type frame struct {
 	panicking        bool
 	panic            interface{}
 	phitemps         []value
-	cur ssa.Instruction
+	cur              ssa.Instruction
 }
 
 func (fr *frame) get(key ssa.Value) value {
@@ -938,11 +938,17 @@ var globalInit map[string]func(i *interpreter) value
 
 func init() {
 	globalInit = map[string]func(i *interpreter) value{
-	"os.ErrNotExist":   func(i *interpreter) value { return i.globalOf("io/fs", "ErrNotExist") },
-	"os.ErrExist":      func(i *interpreter) value { return i.globalOf("io/fs", "ErrExist") },
-	"os.ErrPermission": func(i *interpreter) value { return i.globalOf("io/fs", "ErrPermission") },
-	"os.ErrInvalid":    func(i *interpreter) value { return i.globalOf("io/fs", "ErrInvalid") },
-	"os.ErrClosed":     func(i *interpreter) value { return i.globalOf("io/fs", "ErrClosed") },
+		"os.ErrNotExist":   func(i *interpreter) value { return i.globalOf("io/fs", "ErrNotExist") },
+		"os.ErrExist":      func(i *interpreter) value { return i.globalOf("io/fs", "ErrExist") },
+		"os.ErrPermission": func(i *interpreter) value { return i.globalOf("io/fs", "ErrPermission") },
+		"os.ErrInvalid":    func(i *interpreter) value { return i.globalOf("io/fs", "ErrInvalid") },
+		"os.ErrClosed":     func(i *interpreter) value { return i.globalOf("io/fs", "ErrClosed") },
+		"errors.ErrUnsupported": func(i *interpreter) value {
+			ep := i.prog.ImportedPackage("errors").Type("errorString").Type()
+			p := new(value)
+			*p = structure{"unsupported operation"}
+			return iface{t: types.NewPointer(ep), v: p}
+		},
 	}
 }
 
